@@ -55,8 +55,16 @@ def _split(paths, outprefix, per=120000):
     return outs
 
 
+# sanitizer builds (VERIF_SANITIZE, property C02): the full pattern set is far too expensive to compile instrumented
+# (cc1plus needs > 10 min per part and runs out of memory): one compact part stands for all of them.  A sanitizer
+# report must end in abort() so that the driver can turn it into a crash event.
+SAN_ENV = {"ASAN_OPTIONS": "abort_on_error=1:detect_leaks=0", "UBSAN_OPTIONS": "abort_on_error=1:print_stacktrace=0"}
+
+
 def parts(tier):
-    return [0, 1, 2, 3, 4, 5, 7, 8, 9] + ([6] if tier == "thorough" else [])
+    if os.environ.get("VERIF_SANITIZE"):
+        return [10]
+    return [0, 1, 2, 3, 4, 5, 7, 8, 9, 11] + ([6] if tier == "thorough" else [])
 
 
 def model(tier):
@@ -94,7 +102,7 @@ def build_drivers(tier, impls, etl_flags):
         for p in parts(tier):
             fl = CXX + ["-DVH_PART=%d" % p] + (["-DVH_STD"] if impl == "std" else list(etl_flags))
             jobs.append(dict(src="md_driver.cpp", out="md_%s_%d" % (impl, p), std="c++23", flags=fl,
-                             include_repo=(impl != "std"), timeout=1500))
+                             include_repo=(impl != "std"), timeout=3600))
             keys.append((impl, p))
     paths = vlib.build_many(jobs, par=8)
     return dict(zip(keys, paths))
@@ -124,7 +132,8 @@ def pipeline(tier, rep, calibrate=True):
     tv = {}
     traps = 0
     for impl in impls:
-        tasks = [([bins[(impl, p)], genfile], os.path.join(d, "md_%s_%s_%d.ndjson" % (impl, tier, p))) for p in parts(tier)]
+        renv = dict(SAN_ENV) if os.environ.get("VERIF_SANITIZE") else {}
+        tasks = [([bins[(impl, p)], genfile], os.path.join(d, "md_%s_%s_%d.ndjson" % (impl, tier, p)), {"env": renv}) for p in parts(tier)]
         res = vlib.run_parallel(tasks, par=8)
         if impl == "etl":
             for _, err in res:
